@@ -2,7 +2,7 @@
 # run every check (tier from $1, default quick) on the current /repo tree; print one summary line per check
 cd "$(dirname "$0")/.."
 tier="${1:-quick}"
-for id in C01 C02 C03 C04 C05 C06 C07 C08 C09 C10 C11 C12 C13 C14; do
+for id in C01 C02 C03 C04 C05 C06 C07 C08 C09 C10 C11 C12 C13 C14 C16; do
   start=$(date +%s)
   out=$(./check $id --tier $tier 2>&1); rc=$?
   end=$(date +%s)
